@@ -199,12 +199,23 @@ def run(ctx: Ctx) -> int:
     pa = rec[0].args[4] if len(rec[0].args) > 4 else next((k.value for k in rec[0].keywords if k.arg == "prefix"), None)
     ok_p = isinstance(pa, ast.BinOp) and isinstance(pa.op, ast.Add) and const_str(pa.right) == "." and _is_prefixed(hs, pa.left) and (nvar in _names(pa.left) or any(nvar in _names(s.value) for s in walk_local(hs) if isinstance(s, ast.Assign) and isinstance(pa.left, ast.Name) and any(isinstance(t, ast.Name) and t.id == pa.left.id for t in s.targets)))
     ok_a = len(rec[0].args) >= 2 and isinstance(rec[0].args[0], ast.Name) and rec[0].args[0].id == pvar and isinstance(rec[0].args[1], ast.Name) and rec[0].args[1].id == "cfg"
-    ok = ok_g and no_skip and ok_p and ok_a
+    # every mode parameter (env, defaults, fail_no_subcommand, ...) reaches the nested level unchanged
+    hparams = [a.arg for a in hs.args.args]
+    bound = {}
+    for i, a in enumerate(rec[0].args):
+        if i < len(hparams):
+            bound[hparams[i]] = a
+    for k in rec[0].keywords:
+        if k.arg:
+            bound[k.arg] = k.value
+    dropped = [p_ for p_ in hparams[2:] if p_ != "prefix" and not (isinstance(bound.get(p_), ast.Name) and bound[p_].id == p_)]
+    ok_pass = not dropped
+    ok = ok_g and no_skip and ok_p and ok_a and ok_pass
     ctx.oblige(
         "C17.d",
         ok,
         rec[0],
-        "handle_subcommands descends into the chosen sub-parser whenever it has subcommands, on the same configuration, with the prefix extended by the chosen name" if ok else "the descent into nested subcommand levels changed (guard, early exit from the loop, prefix or arguments): deeper levels are not selected / completed",
+        "handle_subcommands descends into the chosen sub-parser whenever it has subcommands, on the same configuration, with the prefix extended by the chosen name" if ok else ("the descent into nested subcommand levels changed (guard, early exit from the loop, prefix or arguments): deeper levels are not selected / completed" if ok_pass else f"the nested level does not receive the caller's {dropped}: below the first level the selection runs with the parameter's default instead (a decision is forced / sources are switched although the caller said otherwise)"),
         fn=hs,
         construct="recursion into nested levels",
     )
